@@ -48,23 +48,24 @@ var c10Shapes = []string{"raw-buffered", "raw-unbuffered", "func()", "func()erro
 
 func (c10) Thresholds(tier string) map[string]int64 {
 	th := map[string]int64{
-		"scripts":                            1000,
-		"commands-executed":                  2500,
-		"waiting-polls-observed":             3000,
-		"polls-issued-with-gate-closed":      3000,
-		"completion:nil":                     1200,
-		"completion:error":                   600,
-		"error-surfaced-exactly-once":        600,
-		"resumed-at-next-statement":          2000,
-		"handler-invoked-exactly-once":       2500,
-		"real-timing-runners":                400,
-		"real-timing-commands":               1500,
-		"order:handler-returned-before-poll": 50,
-		"order:poll-before-handler-returned": 50,
-		"wait-commands":                      10,
-		"wait-fractional":                    6,
-		"race-detector-enabled-children":     1,
-		"race-canary-reported":               1,
+		"scripts":                               1000,
+		"commands-executed":                     2500,
+		"waiting-polls-observed":                3000,
+		"polls-issued-with-gate-closed":         3000,
+		"pending-command-is-the-last-statement": 100,
+		"completion:nil":                        1200,
+		"completion:error":                      600,
+		"error-surfaced-exactly-once":           600,
+		"resumed-at-next-statement":             2000,
+		"handler-invoked-exactly-once":          2500,
+		"real-timing-runners":                   400,
+		"real-timing-commands":                  1500,
+		"order:handler-returned-before-poll":    50,
+		"order:poll-before-handler-returned":    50,
+		"wait-commands":                         10,
+		"wait-fractional":                       6,
+		"race-detector-enabled-children":        1,
+		"race-canary-reported":                  1,
 	}
 	for _, s := range c10Shapes {
 		th["shape:"+s] = 150
@@ -76,7 +77,7 @@ func (c10) Thresholds(tier string) map[string]int64 {
 }
 
 func (c10) Rule() string {
-	return "all children run under the Go race detector (reports are counted from GORACE log files by the parent). Case 0 = the built-in <<wait n>> for n in {0, 0.0009, 0.0137, 0.05, 0.25, 0.5, 0.9, 1, 1.25} run in parallel runners, and case 1 = sub-millisecond and odd fractional waits (0.0009, 0.00051, 0.0011, 0.0137, 0.00999, 0.0025) 25 times each, one after the other: completion must not be observed earlier than n seconds after the call that started it (monotonic clock, lower bound only). Every other case = (a) one script with 1-5 commands between lines and sets, each command with a handler shape {" + strings.Join(c10Shapes, ", ") + "} and a completion schedule {complete on return, or complete after p in 1..5 polls} x {nil, sentinel error}: completion is driven by the harness through a gate, so 'pending' is a logical state, not a timing; (b) an abandon scenario: a pending command is abandoned by RestoreAt, the same command statement is executed again, and the abandoned invocation reports completion (with an error) first - the dialogue must keep waiting for the second invocation and then resume without error; (c) a real-timing run: 4 runners in parallel goroutines whose handlers sleep 0-2 ms in the bridge goroutine while the driver polls with 0-1 ms pauses. Oracle (a): every Next issued while the gate is closed returns ErrWaitingForCommandCompletion (a 10 s watchdog opens the gate if the call does not return: a call that returns anything else than 'waiting' although it was issued with the gate closed is the violation), with no store write, no probe and no handler invocation during it; after the gate opens, buffered-channel shapes must be observed by the very next Next, goroutine / unbuffered shapes within a bounded number of polls; a reported error surfaces exactly once (errors.Is sentinel) and the dialogue then resumes at the statement after the command; every executed command invoked its handler exactly once with the arguments written. Oracle (b): each runner's elements are the script's lines in order, every handler ran once, zero race reports with a ysgo frame. Non-trivial: >=1 command stayed pending for >=1 poll. Distinct by hash of script+shapes+schedules."
+	return "all children run under the Go race detector (reports are counted from GORACE log files by the parent). Case 0 = the built-in <<wait n>> for n in {0, 0.0009, 0.0137, 0.05, 0.25, 0.5, 0.9, 1, 1.25} run in parallel runners, and case 1 = sub-millisecond and odd fractional waits (0.0009, 0.00051, 0.0011, 0.0137, 0.00999, 0.0025) 25 times each, one after the other: completion must not be observed earlier than n seconds after the call that started it (monotonic clock, lower bound only). Every other case = (a) one script with 1-5 commands between lines and sets, each command with a handler shape {" + strings.Join(c10Shapes, ", ") + "} and a completion schedule {complete on return, or complete after p in 1..5 polls} x {nil, sentinel error}: completion is driven by the harness through a gate, so 'pending' is a logical state, not a timing; in a third of the scripts the last command is the very last statement of the dialogue (closing 0-2 enclosing blocks), so that the waiting protocol is also observed when nothing follows the command; (b) an abandon scenario: a pending command is abandoned by RestoreAt, the same command statement is executed again, and the abandoned invocation reports completion (with an error) first - the dialogue must keep waiting for the second invocation and then resume without error; (c) a real-timing run: 4 runners in parallel goroutines whose handlers sleep 0-2 ms in the bridge goroutine while the driver polls with 0-1 ms pauses. Oracle (a): every Next issued while the gate is closed returns ErrWaitingForCommandCompletion (a 10 s watchdog opens the gate if the call does not return: a call that returns anything else than 'waiting' although it was issued with the gate closed is the violation), with no store write, no probe and no handler invocation during it; after the gate opens, buffered-channel shapes must be observed by the very next Next, goroutine / unbuffered shapes within a bounded number of polls; a reported error surfaces exactly once (errors.Is sentinel) and the dialogue then resumes at the statement after the command; every executed command invoked its handler exactly once with the arguments written. Oracle (b): each runner's elements are the script's lines in order, every handler ran once, zero race reports with a ysgo frame. Non-trivial: >=1 command stayed pending for >=1 poll. Distinct by hash of script+shapes+schedules."
 }
 
 func (c10) Assumptions() []string {
@@ -409,6 +410,7 @@ func (p c10) gated(c *core.Ctx) {
 		}
 	}
 	var cmds []*c10Cmd
+	tail := r.Chance(1, 3)
 	for i := 0; i < ncmd; i++ {
 		addFiller()
 		k := &c10Cmd{name: fmt.Sprintf("cmd%d", i), shape: r.Intn(len(c10Shapes)), polls: r.Intn(6), gate: make(chan struct{})}
@@ -423,18 +425,40 @@ func (p c10) gated(c *core.Ctx) {
 		k.id, k.num, k.flag = fmt.Sprintf("c%d", i), float64(r.Range(0, 9))+0.5, r.Bool()
 		cmds = append(cmds, k)
 		items = append(items, c10Item{kind: "cmd", cmd: k})
+		c.Feature("shape:" + c10Shapes[k.shape])
+		c.Feature(fmt.Sprintf("schedule:complete-after-%d-polls", k.polls))
+		if i == ncmd-1 && tail {
+			// the command is the very last statement of the dialogue: it closes 0-2 enclosing blocks
+			ind := ""
+			for d := r.Intn(3); d > 0; d-- {
+				fmt.Fprintf(&b, "%s<<if true>>\n", ind)
+				ind += "    "
+			}
+			fmt.Fprintf(&b, "%s<<%s %s %v %v>>\n", ind, k.name, k.id, k.num, k.flag)
+			for len(ind) > 0 {
+				ind = ind[4:]
+				fmt.Fprintf(&b, "%s<<endif>>\n", ind)
+			}
+			c.Feature("command-is-the-last-statement")
+			if k.polls > 0 {
+				c.Feature("pending-command-is-the-last-statement")
+			}
+			break
+		}
 		fmt.Fprintf(&b, "<<%s %s %v %v>>\n", k.name, k.id, k.num, k.flag)
 		// a line follows every command, so that the call that notices a completion returns an element
 		// (two adjacent commands are exercised by the real-timing workload)
 		id++
 		items = append(items, c10Item{kind: "line", text: fmt.Sprintf("A%d", id)})
 		fmt.Fprintf(&b, "A%d\n", id)
-		c.Feature("shape:" + c10Shapes[k.shape])
-		c.Feature(fmt.Sprintf("schedule:complete-after-%d-polls", k.polls))
 	}
-	addFiller()
-	items = append(items, c10Item{kind: "line", text: "end"})
-	b.WriteString("end\n===\n")
+	if tail {
+		b.WriteString("===\n")
+	} else {
+		addFiller()
+		items = append(items, c10Item{kind: "line", text: "end"})
+		b.WriteString("end\n===\n")
+	}
 	script := b.String()
 	st := mon.NewRecStorer()
 	rr, err, pan := mon.Create(st, "", []string{script})
@@ -644,6 +668,10 @@ func (p c10) gated(c *core.Ctx) {
 		_ = have
 	}
 	// the end
+	if tail && o.Kind != mon.KEnd {
+		fail("after the last statement (a command) completed the dialogue did not end: " + o.String())
+		return
+	}
 	e := rr.Once(0)
 	if e.Kind != mon.KEnd {
 		trace = append(trace, "Next = "+e.String())
